@@ -375,7 +375,7 @@ CHECKS["C16"] = {
     "level": "exploration",
     "rule": ("mux: prefix length 0..8, 0..3 routes whose prefixes differ only in their last byte, 1..4 client connections (net.Pipe behind an in-memory base listener) whose first bytes match a route, match none, are shorter than the prefix, or that go away without sending a byte, "
              "payload 0..200 bytes plus a marker, written in drawn splits of 1..9 bytes (so the prefix itself is split across writes), and a history of 1..12 events (Route registration, starting an Accept loop on a listener, a connection arriving, closing a "
-             "listener, registering a closed route again, cancelling Run's context, base Accept failing, a connection that the base Accept is still returning when Run is stopped), each followed by quiescence; the accepting side reads with large or with 1/2/3/5-byte buffers; optionally the goroutine that unregisters a closed route is held in front of the unregistration until a release event (while it is held, a connection for that prefix may be closed or fall through to the default). Oracle: every connection the base listener handed out is returned by exactly one Accept - the route registered for its prefix with the prefix consumed, "
+             "listener, registering a closed route again, cancelling Run's context, base Accept failing, a connection that the base Accept is still returning when Run is stopped), each followed by quiescence; the accepting side reads with large or with 1/2/3/5-byte buffers, at once or only after every connection of the history has passed the multiplexer; optionally the goroutine that unregisters a closed route is held in front of the unregistration until a release event (while it is held, a connection for that prefix may be closed or fall through to the default). Oracle: every connection the base listener handed out is returned by exactly one Accept - the route registered for its prefix with the prefix consumed, "
              "otherwise the default listener with the byte stream identical from byte 0 - or is closed, never both, never twice; a connection that arrived while an Accept was pending on its listener is delivered, not closed; after Run returned no Accept stays pending. "
              "header: 1..3 goroutines writing 0..3 chunks each through a HeaderConn over a recording connection whose first or second underlying write can be held until everybody else is blocked; the wire must be the header once, first, followed by every payload byte exactly once, and each Write must return its own length. "
              "Non-trivial: a connection was delivered with routes registered or with the prefix split across writes (mux); >= 2 writes (header)."),
